@@ -1,25 +1,29 @@
 #!/bin/sh
-# archives every /tmp/out-Cxx/{A,B} into /verif/seeded/<id>/ with confirmation and detection info
+# usage: archive_seeds.sh <glob of seed dirs> <suffix-from-dirname: yes|no>
+# Archives independently seeded changes into /verif/seeded/<id>/ with my own confirmation
+# (confirm_seed.sh: scratch worktree, build, suite, demonstration with/without) and the rules that
+# report it (seedtest2.sh: scratch copy). /repo itself is not modified.
+# default: round 2 (/tmp/out2-Cxx/{C,D,E})
+G="${1:-/tmp/out2-C*/[CDE]}"
 cd /verif
-for p in $(ls -d /tmp/out-C*/ | xargs -n1 basename | sed 's/out-//'); do
- for v in A B; do
-  d=$p/$v
-  [ -f /tmp/out-$d/patch.diff ] || continue
-  id=$(echo $d | tr -d '/'); mkdir -p seeded/$id
-  cp /tmp/out-$d/patch.diff seeded/$id/; [ -f /tmp/out-$d/patch.orig.diff ] && cp /tmp/out-$d/patch.orig.diff seeded/$id/; cp /tmp/out-$d/*_test.go seeded/$id/ 2>/dev/null
-  r=$(./confirm_seed.sh /tmp/out-$d)
-  det=$(./seedtest.sh /tmp/out-$d/patch.diff 2>&1 | grep -E "^  C[0-9]+\.R" | sed 's/ at .*//' | sed 's/^  //' | sort -u | tr '\n' ';')
-  python3 - "$d" "$r" "$det" <<'PY'
+for src in $(ls -d $G 2>/dev/null); do
+  [ -f $src/patch.diff ] || continue
+  prop=$(basename $(dirname $src) | sed 's/out2-//; s/out-//')
+  v=$(basename $src)
+  id="$prop$v"
+  mkdir -p seeded/$id
+  cp $src/patch.diff seeded/$id/; cp $src/*_test.go seeded/$id/ 2>/dev/null
+  r=$(./confirm_seed.sh $src)
+  det=$(./seedtest2.sh $src/patch.diff 2>&1 | grep -E "^  C[0-9]+\.R" | sed 's/ at .*//' | sed 's/^  //' | sort -u | tr '\n' ';')
+  python3 - "$src" "$prop" "$v" "$r" "$det" <<'PY'
 import json,sys
-d,r,det=sys.argv[1],sys.argv[2],sys.argv[3]
-m=json.load(open('/tmp/out-%s/meta.json'%d))
+src,prop,v,r,det=sys.argv[1:6]
+m=json.load(open(src+'/meta.json'))
 conf=json.loads(r)
-prop=d.split('/')[0]
-out={"id":d.replace('/',''),"property":prop,"variant":d.split('/')[1],"origin":"independent sub-agent given only the property text and a scratch worktree","summary":m.get('summary'),"needs_to_manifest":m.get('needs_to_manifest'),"demo":m.get('demo'),"agent_verified":m.get('verified'),
- "confirmed_by_me":conf,"what_i_ran":"confirm_seed.sh (scratch worktree of /repo HEAD: git apply, go build ./..., go test -vet=off -count=1 ./..., demonstration with and without the patch) and seedtest.sh (git -C /repo apply, spycheck -prop all, git checkout -- .)",
+out={"id":prop+v,"property":prop,"variant":v,"origin":"independent sub-agent given only the property text and a scratch worktree","summary":m.get('summary'),"needs_to_manifest":m.get('needs_to_manifest'),"demo":m.get('demo'),"agent_verified":m.get('verified'),
+ "confirmed_by_me":conf,"what_i_ran":"confirm_seed.sh (scratch worktree of /repo HEAD: git apply, go build ./..., go test -vet=off -count=1 ./..., demonstration with and without the patch) and seedtest2.sh (scratch copy of /repo with the patch, spycheck -prop all)",
  "detected_by":[x for x in det.split(';') if x]}
-json.dump(out,open('/verif/seeded/%s/meta.json'%d.replace('/',''),'w'),indent=1)
-print(d, conf, 'detected_by', out['detected_by'])
+json.dump(out,open('/verif/seeded/%s%s/meta.json'%(prop,v),'w'),indent=1)
+print(prop+v, conf, 'detected_by', len(out['detected_by']))
 PY
- done
 done
